@@ -14,16 +14,16 @@ echo "demo with change rc=$RC_WITH, without rc=$RC_WITHOUT"
 mkdir -p /verif/seeded/$NAME
 cp /tmp/wt/_cur.diff /verif/seeded/$NAME/patch.diff
 cp $DEMO /verif/seeded/$NAME/
-cd /repo && git status --short | grep -q . && { echo "/repo dirty"; exit 8; }
-git -C /repo apply /verif/seeded/$NAME/patch.diff || { echo "patch does not apply to /repo"; exit 7; }
+# the checks are pointed at the scratch worktree (REX_REPO) with the change applied: /repo itself is never touched, so this can run while
+# a thorough run or `vp check` reads /repo
+[ -z "$(git -C $WT diff -- rex | head -1)" ] && { echo "change not applied in $WT"; exit 7; }
 RES=""
-rm -rf /tmp/wt/_evid_bak; cp -r /verif/evidence /tmp/wt/_evid_bak   # runs against a mutant must not leave their evidence behind
+EV=/tmp/wt/_evid_bak_$$; rm -rf $EV; cp -r /verif/evidence $EV   # runs against a mutant must not leave their evidence behind
 for id in "$@"; do
-  cd /verif && ./check $id --tier quick > /tmp/wt/_check_$id.log 2>&1; rc=$?
+  cd /verif && REX_REPO=$WT ./check $id --tier quick > /tmp/wt/_check_$id.log 2>&1; rc=$?
   RES="$RES $id:rc=$rc"
   echo "== $id rc=$rc"; grep -E "^(VIOLATION|  what|MODEL-DID|HARNESS|INCONC)" /tmp/wt/_check_$id.log | cut -c1-260 | head -6
 done
-git -C /repo checkout -- .
-rm -rf /verif/evidence; cp -r /tmp/wt/_evid_bak /verif/evidence
+rm -rf /verif/evidence; cp -r $EV /verif/evidence; rm -rf $EV
 rm -rf /verif/evidence/replay
 echo "RESULT $NAME demo_with=$RC_WITH demo_without=$RC_WITHOUT $RES"
